@@ -6,16 +6,21 @@
 package zzverifself
 
 import (
-	"context"
+	"bufio"
 	"bytes"
+	"context"
 	"encoding/binary"
 	"encoding/hex"
 	"errors"
 	"fmt"
 	"math/bits"
+	"net"
+	"os"
+	"regexp"
 	"sort"
 	"strconv"
 	"strings"
+	"time"
 	"unicode"
 	"unicode/utf8"
 
@@ -253,3 +258,67 @@ func VerifSELFContextCancel() {
 }
 
 type selfKey struct{}
+
+// Environment models: time.Unix arithmetic, net address parsing, the in-memory
+// file model and bufio.Scanner. Each is compared with the native run
+// (conformance) and asserted against what the real library guarantees.
+func VerifSELFEnvModels() {
+	sec := nd.Int64("env.sec")
+	nd.Assume(sec > -1<<40 && sec < 1<<40)
+	t := time.Unix(sec, 0)
+	nd.Assert("self.env.time-unix-roundtrip", t.Unix() == sec)
+	nd.Assert("self.env.time-zero", time.Time{}.Unix() == -62135596800)
+
+	b := nd.Bytes("env.ip", 4)
+	ip := net.IP(b).String()
+	back := net.ParseIP(ip).To4()
+	nd.Assert("self.env.ip-roundtrip", back != nil && back[0] == b[0] && back[1] == b[1] && back[2] == b[2] && back[3] == b[3])
+
+	path := nd.TempPath("self-env")
+	defer os.Remove(path)
+	_, err := os.Stat(path)
+	nd.Assert("self.env.stat-missing", err != nil)
+	f, err := os.OpenFile(path, os.O_RDWR|os.O_CREATE|os.O_EXCL, 0640)
+	nd.Assert("self.env.create", err == nil)
+	if err != nil {
+		return
+	}
+	c := nd.Uint8("env.c")
+	nd.Assume(c != '\n' && c != '\r') // ScanLines strips a trailing CR
+	f.WriteString("ab\n")
+	f.Write([]byte{c, '\n'})
+	f.Close()
+	data, err := os.ReadFile(path)
+	nd.Assert("self.env.readback", err == nil && len(data) == 5 && data[3] == c)
+	sc := bufio.NewScanner(bytes.NewReader(data))
+	n := 0
+	last := ""
+	for sc.Scan() {
+		n++
+		last = sc.Text()
+	}
+	nd.Reach("self.env.done")
+	nd.Observe(n, last, ip)
+	nd.Assert("self.env.scanner-lines", n == 2 && len(last) == 1 && last[0] == c)
+}
+
+// regexp interpreted from source: a concrete pattern against a symbolic subject.
+var selfWordRe = regexp.MustCompile(`^(\w+)(.*)$`)
+
+func VerifSELFRegexp() {
+	s := nd.String("re.s", 3)
+	m := selfWordRe.FindStringSubmatch(s)
+	isWord := func(c byte) bool {
+		return nd.Or(nd.Or(c >= '0' && c <= '9', c == '_'), nd.Or(c >= 'a' && c <= 'z', c >= 'A' && c <= 'Z'))
+	}
+	nl := nd.Or(nd.Or(s[0] == '\n', s[1] == '\n'), s[2] == '\n')
+	nd.Assume(!nl) // . does not match a newline
+	nd.Reach("self.re.done")
+	nd.Assert("self.re.match-iff-leading-word-char", (m != nil) == isWord(s[0]))
+	if m != nil {
+		nd.Observe(m[1], m[2])
+		nd.Assert("self.re.groups-partition", m[1]+m[2] == s && len(m[1]) >= 1)
+		pat := regexp.MustCompile("^" + regexp.QuoteMeta("a.b") + "$")
+		nd.Assert("self.re.quotemeta", pat.MatchString("a.b") && !pat.MatchString("axb"))
+	}
+}
